@@ -43,9 +43,12 @@ func (m *lock) LockSafe() uint8 {
 	verifYield(verifBeforeLock, &m.mu)
 	m.mu.Lock()
 	if m.bitPool.Exhausted() {
-		// bitPool.Get panics when all bits are in use. Release the mutex first,
+		// All bits are in use. Release the mutex before panicking,
 		// as the panic may be recovered and the world used further.
+		// The pool must not be touched any more without the mutex.
 		m.mu.Unlock()
+		verifYield(verifAfterUnlock, nil)
+		panicBitPoolExhausted()
 	}
 	lock := m.bitPool.Get()
 	verifYield(verifInLock, nil)
